@@ -229,3 +229,8 @@ def _forall_str2(ip, args, kw):
     a, b = L.fresh("rs", L.S), L.fresh("rs", L.S)
     body = as_bool(ip.call_closure(clo, [ZS(a), ZS(b)]))
     return ZB(z3.ForAll([a, b], body))
+
+
+@spec("values_")
+def _values(ip, args, kw):
+    return ZV(L.dict_values(as_v(args[0])), "seq")
